@@ -3,7 +3,6 @@ package c02
 
 import (
 	"fmt"
-	"math"
 	"os"
 	"strings"
 	"testing"
@@ -124,7 +123,7 @@ func drawOp(t *rapid.T, w *world.World, st *state) fsx.Op {
 		case 0:
 			off = offsets(t, size, "off")
 		default:
-			off = rapid.SampledFrom([]int64{-size - 1, -size, -1, 0, 1, 7, size, 4096, 1 << 62, math.MaxInt64, math.MinInt64}).Draw(t, "off")
+			off = rapid.SampledFrom([]int64{-size - 1, -size, -1, 0, 1, 7, size, 4096}).Draw(t, "off")
 		}
 		return fsx.Op{K: k, H: h, Off: off, Whence: wh}
 	case "FTruncate":
